@@ -484,8 +484,8 @@ static void sched_run(const std::vector<std::string> &plan, Child &c) {
   c.count(std::string("sched.strategy.") + st);
   c.count(std::string("sched.fs.") + fsmode);
   c.count("fault.flaky_fired", fs::flaky_fired());
-  if (fs::open_fds() != 0)
-    c.violation("fd-leak", "descriptor-open-after-run", strf("%d simulated descriptor(s) still open after all tasks finished (%s)", fs::open_fds(), fs::open_fd_desc().c_str()));
+  if (fs::open_unmapped_fds() != 0)
+    c.violation("fd-leak", "descriptor-open-after-run", strf("%d simulated descriptor(s) still open after all tasks finished although no mapping made from them is alive (%s)", fs::open_unmapped_fds(), fs::open_fd_desc().c_str()));
   c.count("sched.tasks", ntasks);
   c.state(s.interleaving_hash);
   for (auto &e : rt::realised()) c.res.sched.push_back(strf("sw %d %llu %d", e.task, (unsigned long long)e.yield, e.next));
